@@ -10,7 +10,7 @@ base = json.load(open('/root/.vp/BASELINE.json'))
 stable = set(base['stable_pass'])
 env = dict(os.environ, GOFLAGS='-mod=mod', GOPROXY='off', GOSUMDB='off', GOTOOLCHAIN='local')
 pkgs = ['./...'] if args == ['all'] else args
-p = subprocess.run(['go', 'test', '-json', '-vet=off', '-count=1', '-timeout', '25m'] + tags + pkgs, cwd='/repo', env=env, capture_output=True, text=True)
+p = subprocess.run(['go', 'test', '-json', '-vet=off', '-count=1', '-timeout', '25m'] + tags + pkgs, cwd=os.environ.get('VERIF_REPO','/repo'), env=env, capture_output=True, text=True)
 res = {}
 for line in p.stdout.splitlines():
     try: e = json.loads(line)
